@@ -41,7 +41,7 @@ Proof.
   destruct (walk_spec _ _ _ _ Ew) as [[Hk Hs]|[Hk Hs]].
   - replace (Nat.ltb k (List.length pre + 1)) with false by (symmetry; apply Nat.ltb_ge; lia).
     rewrite Hs. cbn [spec_resolve].
-    destruct parent as [i pb|i sh es]; cbn [lookup f_leaf_last flags_off].
+    destruct parent as [i pb|i sh es]; cbn [lookup f_leaf_last flags_off andb].
     + reflexivity.
     + destruct (assoc l es); reflexivity.
   - replace (Nat.ltb k (List.length pre + 1)) with true by (symmetry; apply Nat.ltb_lt; lia).
